@@ -166,7 +166,7 @@ def obs_term(e):
 
 
 def evaluate(ctx, binp, cases, tag):
-    rc, res, raw = vlib.run_json(binp, {"cases": cases, "max_bad": 3}, timeout=900)
+    rc, res, raw, _loud = vlib.run_json_verbose_share(ctx, binp, {"cases": cases, "max_bad": 3}, timeout=900)
     if res is None:
         raise vlib.GoBuildError("./cmd/c14 (run)", raw[-3000:])
     by_id, terms = {}, []
